@@ -178,6 +178,10 @@ class Bounds:
         if k == "len":
             lo, hi = max(lo, 0), min(hi, ISIZE_MAX)
             base = a[1]
+            if isinstance(base, tuple) and base and base[0] == "index" and depth < 4 and isinstance(base[2], tuple) and base[2] and base[2][0] == "agg" and "Range" in str(base[2][1]):
+                # a sub-slice is no longer than the slice it is taken from
+                l3, h3 = self.itv(("len", base[1]), depth + 1)
+                hi = min(hi, h3)
             if depth < 2:
                 try:
                     from lib import bytelen as _bytelen
@@ -256,8 +260,12 @@ class Bounds:
             if ls:
                 lo, hi = max(lo, min(ls)), min(hi, max(hs))
         elif k == "vfield":
-            # payload of a call result: typed via tty only
-            pass
+            # payload of a call result: typed via tty; the byte count of a socket / stream transfer is at most the length of the buffer handed in
+            src = a[1]
+            if isinstance(src, tuple) and src and src[0] == "call" and a[2] == "Ok" and values.strip_generics(src[1]).split("::")[-1] in ("send_to", "send", "write", "read", "recv") \
+                    and len(src[2]) >= 2 and depth < 3:
+                bl2, bh2 = self.itv(("len", src[2][1]), depth + 1)
+                lo, hi = max(lo, 0), min(hi, bh2)
         elif k == "call":
             nm = values.strip_generics(a[1]).split("::")[-1]
             if nm in ("trailing_zeros", "leading_zeros", "count_ones", "count_zeros", "ilog2"):
